@@ -109,7 +109,9 @@ EXOTIC = ["\x0c", "\x0b", "\x1c", "\x1d", "\x1e", "\x85", "\u2028", "\u2029"]
 EXOTIC_FIXED = [
     "page one\n\x0cpage two\n", "Terms:\n1.\x0bfirst\n2.\x0bsecond", "para\u2028graph\nnext\u2029one", "legacy\x85mainframe\ntext",
     "a\x1cb\x1dc\x1ed\n", "\x0c", "\x0c\n", "\n\x0c", "x\n\x85\ny", "\u2028\n\u2029", "-\x0b-\n-----END\x0c\n", "\n\nlead\x1e\n\n\ntrail\x1d\n\n",
-    "lone\rcr\nline\x0c", "\rstart\n\x0bend", "-----BEGIN SIGNATURE-----\x0c\nfirst line", "a\x0c\x0c\x0cb\nc", "tab\t\x0c tab\n",
+    "lone\rcr\nline\x0c", "\rstart\n\x0bend",
+    # lines that look like RFC 2440 dash-escaped text ("- " followed by a dash): the format does not dash-escape (seed C17-e1)
+    "- -q quiet", "- - nested\n", "a\n- -5 C\nb", "- -----BEGIN BITCOIN SIGNED MESSAGE-----", "- -\n- -", "-  -x", "- x\n-- y\n- -z", "-----BEGIN SIGNATURE-----\x0c\nfirst line", "a\x0c\x0c\x0cb\nc", "tab\t\x0c tab\n",
 ]
 
 
